@@ -24,8 +24,10 @@ def applyOp (st : Digest × String) (op : String) : Option (Digest × String) :=
       pure (RbModel.Digest.Digest.addArray shifts d gs, rets)
   | _ => none
 
+def cmds : List String := ["digest"]
+
 def handle (ts : List String) : Option String :=
-  match ts with
+  match ts.drop 1 with
   | ["add", s, m, g] => do
       let s ← s.toNat?; let m ← m.toNat?; let g ← g.toNat?
       pure (toString (add s m g))
